@@ -164,6 +164,9 @@ class BlobReplayer:
                                   pack_keep_old=self.keep_old)
         elif self.flavour == 'wrapmap':
             self.st = BlobStorage(self.blob_dir, MappingStorage())
+        elif self.flavour == 'wrapfile':
+            # the wrapper over an undo-capable storage without blob support of its own (BlobStorage.undo)
+            self.st = BlobStorage(self.blob_dir, FileStorage(os.path.join(self.dir, 'Data.fs')))
         else:
             raise ValueError(self.flavour)
         self.db = ZODB.DB(self.st)                               # writes the root object: tid 1
@@ -566,10 +569,10 @@ class BlobReplayer:
         want = 'ok'
         if fail_at:
             want = 'probe:' + fail_at
-        elif 'StoreFail' in names:
-            want = 'ConflictError'
-        elif 'UStoreFail' in names:
-            want = 'UndoError'
+        else:
+            for st in steps:
+                if st['name'] in ('StoreFail', 'UStoreFail'):
+                    want = st['state']['res']['out']         # ConflictError | UndoError | KeyError
         return got, want, caps
 
 
